@@ -474,6 +474,26 @@ def rule_R6_roundtrip(ctx, prj) -> bool:
                 if d:
                     ctx.viol("R6", "from_json/reads-differ", rfi.site(), f"{case}: reading the same text again gives another report: {d[:200]}")
                     continue
+                # ambient configuration must not leak into a report that is read: with Configuration.repository set (as a scan inside
+                # a GitHub checkout does), the document read back still says what was written
+                try:
+                    cfg = prj.classes.get("codelimit.common.Configuration:Configuration")
+                    if cfg is not None and any("repository" in c.class_attrs for c in cfg.mro()):
+                        owner = next(c for c in cfg.mro() if "repository" in c.class_attrs)
+                        ambient = lab.new(lab.Repo, "cfg-owner", "cfg-name", "cfg-branch")
+                        lab.it.class_state[(owner.qual, "repository")] = ambient
+                        try:
+                            amb = lab.read(texts["pretty"])
+                            d = first_difference(lab.snapshot(back), lab.snapshot(amb))
+                        finally:
+                            lab.it.class_state[(owner.qual, "repository")] = None
+                        if d:
+                            ctx.viol("R6", "from_json/ambient-configuration", rfi.site(), f"{case}: with Configuration.repository set in the reading process the re-read report differs from "
+                                                                                        f"the written one at {d[:200]}: the process' configuration leaks into the report")
+                            continue
+                except PyRaise as e:
+                    ctx.viol("R6", "from_json/ambient-configuration", rfi.site(), f"{case}: with Configuration.repository set, reading the document raises {e.name}")
+                    continue
                 ctx.ok("R6", wfi.site(), f"{case}: pretty/compact valid and equal, re-read report equal (also when read repeatedly), re-written document equal up to timestamp "
                                          f"({len(texts['pretty'])} characters, {lab.it.steps} interpreter steps)")
         # restoration without fallback to the running tool's values (only when the round trip itself is in order)
